@@ -252,6 +252,8 @@ def main(argv=None):
         "units": [{"unit": r["unit"], "pass": r["pass_name"], "paths": r.get("paths"), "wall_s": r["wall_s"],
                    "n": len(r["obligations"]), "error": r["error"]} for r in reports],
         "explanation": info.get("explanation", ""),
+        # callees that have neither a contract nor a model were given the contract `true` (any result, any exception, any effect)
+        "uncontracted_callees": sorted({u for r in reports for u in (r.get("uncontracted") or [])}),
     }
     if level != "proof":
         cov["evaluations"] = max(1, n_obl + sum(e.get("evaluations", 0) for e in extras))
